@@ -38,7 +38,8 @@ def histories(draw, max_len=6):
     p = gen.plain
     idx = [p(r.lower()) for r in RANKS]
     decl, exprs = [], []
-    names = ["T%d" % i for i in range(n - 1)] + ["Z"]
+    # names in an order that is NOT alphabetical: program order is what counts
+    names = list(draw(st.permutations(["Z", "Y", "X", "T", "S", "U", "R"])))[:n]
     decl.append(["A", list(RANKS)])
     prev = "A"
     steps = []
@@ -63,6 +64,12 @@ def histories(draw, max_len=6):
             cfg = draw(st.sampled_from(CONFIGS))
         space = lo[len(lo) - nspace:] if nspace else []
         time = [r for r in lo if r not in space]
+        if steps and nspace == 0 and steps[-1]["nspace"] == 0 and draw(st.integers(0, 2)) == 0:
+            # same time-stamp list as the previous Einsum but another loop order (the prefix is defined by the loop order)
+            lo = list(draw(st.permutations(RANKS)))
+            time = list(steps[-1]["time"])
+        elif draw(st.integers(0, 2)) == 0:
+            time = list(draw(st.permutations(time)))      # time stamps may be listed in any order: only loop order counts
         loop_order[out] = lo
         spacetime[out] = {"space": space, "time": time}
         pool = comp_pool(cfg)
@@ -90,7 +97,7 @@ def histories(draw, max_len=6):
             entry.append({"component": pool["mem"], "bindings": [
                 {"tensor": other, "rank": lo[-1], "type": "payload", "format": "default"}]})
         bindings[out] = entry
-        steps.append({"out": out, "cfg": cfg, "lo": lo, "nspace": nspace, "space": space, "functional": used})
+        steps.append({"out": out, "cfg": cfg, "lo": lo, "nspace": nspace, "space": space, "time": time, "functional": used})
     arch = {}
     for cfg in CONFIGS:
         pool = comp_pool(cfg)
